@@ -1065,6 +1065,9 @@ func (p *CodeBuilder) refMember(typ types.Type, name string, argVal target.Expr,
 
 func (p *CodeBuilder) fieldRef(x target.Expr, o *types.Struct, name string, src ast.Node, visited map[*types.Struct]none) bool {
 	var embed []*types.Var
+	if name == "" {
+		return false
+	}
 	if c := name[0]; c >= '0' && c <= '9' { // tuple: ordinal field
 		name = "X_" + name
 	}
@@ -1510,6 +1513,9 @@ func (p *CodeBuilder) btiMethod(
 
 func (p *CodeBuilder) normalField(
 	o *types.Struct, name string, arg *Element, src ast.Node) MemberKind {
+	if name == "" {
+		return MemberInvalid
+	}
 	if c := name[0]; c >= '0' && c <= '9' { // tuple: ordinal field
 		name = "X_" + name
 	}
